@@ -1,7 +1,7 @@
 """C11 - Literal and the built-in value types match exactly their documented values (DESIGN 6/C11)."""
 import json
 
-from . import _gen
+from . import _gen, _tm
 
 ID = "C11"
 LEVEL = "other"
@@ -19,7 +19,8 @@ BOUNDS = {"families": "native/gen_dependent.py"}
 
 
 def tasks(tier):
-    return _gen.dep_tasks(tier)
+    # a method is wrapped in its value check iff registration flagged it value-dependent; resolve wraps the flagged rank
+    return _gen.dep_tasks(tier) + _tm.register_unbounded_tasks() + _tm.resolve_unbounded_tasks() + _tm.wrap_tasks()
 
 
 def conformance(tier):
